@@ -15,7 +15,7 @@ import numpy as np
 import pandas as pd
 
 from sim import adapters, workload
-from sim.core import EndRun, canon, documented_refusal, np_seed
+from sim.core import EndRun, approx_same, canon, documented_refusal, np_seed
 
 PROP = "C14"
 LEVEL = "fault_enumeration"
@@ -233,7 +233,7 @@ def _canon_tag(k, name):
     return "nd2"
 
 
-def _trace(ctx, name, cfg, k, events, canonical=False):
+def _trace(ctx, name, cfg, k, events, canonical=False, raw=None):
     det = ctx.call(f"C14:{name}:ctor", adapters.build, name, cfg)
     out = []
     for i, ev in enumerate(events):
@@ -246,7 +246,10 @@ def _trace(ctx, name, cfg, k, events, canonical=False):
             ctx.call(f"C14:{name}:valid_call:{_canon_tag(k, name) if canonical else ev[1]}", _call, det, k, ev,
                      _canon_tag(k, name) if canonical else None)
         ctx.sim_time += 1
-        out.append(canon(adapters.observe(det)))
+        o = adapters.observe(det)
+        if raw is not None:
+            raw.append(o)
+        out.append(canon(o))
     return out
 
 
@@ -379,16 +382,18 @@ def _run_single(ctx, name, cfg, k, events, pos, kind, base):
 def run(case, ctx):
     name, cfg, events = case["det"], case["cfg"], case["events"]
     k = adapters.kind(name)
-    base = _trace(ctx, name, cfg, k, events)
+    raw_b = []
+    base = _trace(ctx, name, cfg, k, events, raw=raw_b)
     if "fault" in case:  # minimised single-fault form
         pos, kind = case["fault"]
         ctx.step = pos * 16 + ALL_KINDS.index(kind)
         run_single(ctx, name, cfg, k, events, min(pos, len(events)), kind, base)
         return
     # container equivalence: the same values as plain ndarrays
-    canonical = _trace(ctx, name, cfg, k, events, canonical=True)
+    raw_c = []
+    canonical = _trace(ctx, name, cfg, k, events, canonical=True, raw=raw_c)
     for i, (a, b) in enumerate(zip(base, canonical)):
-        if a != b:
+        if a != b and not approx_same(raw_b[i], raw_c[i]):
             ctx.step = i
             ctx.violation("containers", f"C14:{name}:container_equivalence",
                           f"call {i}: outputs with containers {[e[1] for e in events[: i + 1]][-3:]} differ from the all-ndarray run: {a[:160]} vs {b[:160]}; cfg={cfg}")
